@@ -90,7 +90,7 @@ def run(ctx: Ctx) -> None:
             got = lark_flat(tree) if tree is not None else None
         except Errors.Syntax:
             got = None
-        if got == '?':
+        if got is not None and '?' in got:
             continue
         cases.append(coq_pair(coq_list(coq_tok(t) for t in toks), coq_opt(got)))
         raw.append(dict(text=text, accepted=got is not None))
@@ -220,6 +220,8 @@ def lark_flat(t):
     d = str(t.data)
     if d == 'var':
         name = t.children[0].children[0] if isinstance(t.children[0], lark.Tree) else t.children[0]
+        if str(name) not in IDS:
+            return '?'
         return '(FAtom str %d)' % IDS.index(str(name))
     if d == 'group_expr':
         return '(FGroup str %s)' % lark_flat(t.children[0])
